@@ -246,7 +246,7 @@ int main(int argc, char **argv)
 {
 	vh::Run R(argc, argv); RP = &R;
 	fb::block_prof();
-	GlobalLogger::set_levels(Logger::Levels(Logger::None));
+	// the global logger (and its thread) is first touched in the forked children only: see forkbatch.hpp child_init
 	SCHEMA = R.args.get("schema", "utest");
 	CTX = SCHEMA == "utest" ? &UTEST::ctx() : &F44::ctx();
 	sm::load_schema(S, std::string(getenv("VERIF_BUILD") ? getenv("VERIF_BUILD") : "build/main") + "/gen/" + SCHEMA + ".model");
@@ -265,6 +265,7 @@ int main(int argc, char **argv)
 		return 0;
 	}
 	if (R.single) {
+		fb::child_init();	// no fork in this mode
 		fb::start_watchdog(true);
 		if (!run_desc(R.single_case)) { fprintf(stderr, "malformed case descriptor %s (placement:content)\n", R.single_case.c_str()); return 2; }
 		R.finish(); return R.violations ? 1 : 0;
